@@ -892,7 +892,10 @@ func (m *M) Admits(sigma []string, s *Search) (bool, bool) {
 				hasPrint = true
 			}
 		}
-		if i == len(sigma) && !hasPrint {
+		_ = hasPrint
+		if i == len(sigma) && len(acts) == 0 {
+			// the whole of sigma has been produced and the reference run is over: nothing that is
+			// still to happen (a pending copy, split or drop) can print another label
 			return true
 		}
 		k := mk{c.key(), i}
